@@ -142,6 +142,34 @@ def run_c05(ctx: common.Ctx):
                 if probs:
                     ctx.monitor_failure('C05:not-wf-after-edit', f'after {name}.pop({i}): {probs[0]}',
                                         {'text': text, 'auto_claim': ac, 'lf': lf, 'edit_seed': seed, 'history': hist})
+        # meta.pop(key) through the value-level mapping: a value that is a tree model kept as it is (an Amount) comes
+        # back as a complete self-contained tree, and the document stays well-formed
+        holders = [(p, m) for p, m in treewalk.walk(f) if hasattr(m, 'meta') and hasattr(m, 'raw_meta') and p != 'root']
+        r.shuffle(holders)
+        for p, m in holders[:3]:
+            try:
+                keyed = [(it.key, it.raw_value) for it in m.raw_meta if isinstance(it.raw_value, edits.base.RawTreeModel)]
+            except Exception:
+                continue
+            if not keyed:
+                continue
+            key, _ = r.choice(keyed)
+            try:
+                v = m.meta.pop(key)
+            except Exception:
+                continue
+            hist.append(f'{p}.meta.pop({key!r})')
+            ctx.count('meta_pop_tree_values')
+            if isinstance(v, edits.base.RawTreeModel):
+                probs = treewalk.wf_problems(v, expect_whole_store=True)
+                if probs:
+                    ctx.monitor_failure('C05:popped-not-selfcontained', f'{p}.meta.pop({key!r}) returned a tree that is not '
+                                        f'self-contained: {probs[0]}', {'text': text, 'auto_claim': ac, 'lf': lf, 'edit_seed': seed, 'history': hist})
+            probs = treewalk.wf_problems(f)
+            if probs:
+                ctx.monitor_failure('C05:not-wf-after-edit', f'after {hist[-1]}: {probs[0]}',
+                                    {'text': text, 'auto_claim': ac, 'lf': lf, 'edit_seed': seed, 'history': hist})
+            break
         ctx.case({'chars': len(text), 'auto_claim': ac, 'lf': lf, 'history': hist[:6]}, nontrivial=ok_edits > 0)
         ctx.count('edits_applied', ok_edits)
 
@@ -195,6 +223,30 @@ def classify_c06(d: str, out: str, f=None) -> str:
     return 'C06:reparse-content-differs'
 
 
+def removal_glued_neighbours(before: str, after: str, last_edit: str) -> bool:
+    """The textual shape of the recorded finding C06:optional-child-removed-next-to-glued-token: the edit `x = None`
+    deleted ONE span `d` = (blanks, then a child that was glued to the token after it) or (a child glued to the token
+    before it, then blanks), so that two non-blank characters which the blanks used to separate are adjacent now."""
+    if not last_edit.rstrip().endswith('= None') or len(after) >= len(before):
+        return False
+    i = 0
+    while i < len(after) and before[i] == after[i]:
+        i += 1
+    j = 0
+    while j < len(after) - i and before[len(before) - 1 - j] == after[len(after) - 1 - j]:
+        j += 1
+    if i + j != len(after) or i == 0 or j == 0:
+        return False
+    d = before[i:len(before) - j]
+    a, b = before[i - 1], before[len(before) - j]
+    if a.isspace() or b.isspace() or not d:
+        return False
+    # (the child may be an expression with blanks inside: only the two ends of the span matter)
+    left = d[0].isspace() and not d[-1].isspace()
+    right = d[-1].isspace() and not d[0].isspace()
+    return left or right
+
+
 def run_c06(ctx: common.Ctx):
     for text, ac, lf, f in documents(ctx, ctx.scale(500, 4000), auto_claim=True):
         seed = ctx.rng.randrange(1 << 30)
@@ -203,6 +255,7 @@ def run_c06(ctx: common.Ctx):
         hist = []
         ok_edits = 0
         n_edits += 2
+        prev_out = text
         for k, e in gen_edits(r, f, n_edits, 0.5):
             if e is None:
                 continue
@@ -213,12 +266,16 @@ def run_c06(ctx: common.Ctx):
             out = treewalk.text_of(f)
             g = gen_docs.parse_ok(out, True)
             w = {'text': text, 'lf': lf, 'edit_seed': seed, 'n_edits': k + 1, 'p_focus': 0.5, 'history': hist, 'printed': out}
+            glued = removal_glued_neighbours(prev_out, out, hist[-1])
+            prev_out = out
             if g is None:
-                ctx.monitor_failure('C06:printed-text-rejected', f'after {hist[-1]} the printed document no longer parses', w)
+                ctx.monitor_failure('C06:optional-child-removed-next-to-glued-token' if glued else 'C06:printed-text-rejected',
+                                    f'after {hist[-1]} the printed document no longer parses', w)
                 break
             d = diff(treewalk.content(f), treewalk.content(g))
             if d:
-                ctx.monitor_failure(classify_c06(d, out, f), f'after {hist[-1]} the re-parsed document differs from the model at {d}', w)
+                ctx.monitor_failure('C06:optional-child-removed-next-to-glued-token' if glued else classify_c06(d, out, f),
+                                    f'after {hist[-1]} the re-parsed document differs from the model at {d}', w)
                 break
             # block comments: attribution may differ after re-parse (C06 excludes it), their texts and order may not
             cf = [t.raw_text for t in f.token_store if type(t).__name__ == 'BlockComment']
@@ -986,7 +1043,13 @@ def run_c06_whole_field(ctx: common.Ctx):
     ctx.count('whole_field_assignments', n_done)
 
 
-def run_c11_comment_handover(ctx: common.Ctx):
+def run_c05_comment_handover(ctx: common.Ctx):
+    """The same hand-over histories as C11's (comments appended to one of the two adjacent repeated fields of a
+    transaction, released, claimed by the neighbour, removed), with the C05 statement evaluated after every step."""
+    run_c11_comment_handover(ctx, wf_prop='C05')
+
+
+def run_c11_comment_handover(ctx: common.Ctx, wf_prop: str = 'C11'):
     """Directed: standalone comments handed back and forth between the two adjacent repeated fields of a
     transaction (meta / postings) and of a file, with removals in between - the claimers move zero-width
     placeholders around - and after every step a deep copy of the transaction and of the file must be equal,
@@ -1060,6 +1123,13 @@ def run_c11_comment_handover(ctx: common.Ctx):
                     w.pop(-1)
             except (ValueError, IndexError) as e:
                 hist[-1] += f' -> {type(e).__name__}'
+            if wf_prop == 'C05':
+                probs = treewalk.wf_problems(f)
+                if probs:
+                    ctx.monitor_failure('C05:not-wf-after-edit', f'after the comment hand-over {hist}: {probs[0]}',
+                                        {'text': text, 'seed': seed, 'history': list(hist)})
+                    break
+                continue
             for name, m in (('transaction', t), ('file', f)):
                 wit = {'text': text, 'seed': seed, 'history': list(hist), 'copied': name}
                 try:
